@@ -26,6 +26,122 @@ pub enum Ty {
     Unsupported(String),
 }
 
+/// Result decoder: how to turn the raw result felts (and the final memory) into a pointer-free text.
+#[derive(Clone, Debug)]
+pub enum RetTy {
+    Scalar(usize),
+    Struct(Vec<RetTy>),
+    /// Variants (decoder, size) and the total size; at most two variants (selector 0 / 1).
+    Enum(Vec<(RetTy, usize)>, usize),
+    /// Element decoder and element size.
+    Array(Box<RetTy>, usize),
+    Boxed(Box<RetTy>, usize),
+}
+
+impl RetTy {
+    pub fn has_pointer(&self) -> bool {
+        match self {
+            RetTy::Scalar(_) => false,
+            RetTy::Struct(m) => m.iter().any(|x| x.has_pointer()),
+            RetTy::Enum(v, _) => v.iter().any(|(x, _)| x.has_pointer()),
+            RetTy::Array(..) | RetTy::Boxed(..) => true,
+        }
+    }
+    /// Decodes `vals` (exactly the size of the type) into `out`. `mem` is the relocated memory.
+    pub fn decode(&self, vals: &[Felt252], mem: &[Option<Felt252>], out: &mut String, depth: usize) -> Result<(), String> {
+        if depth > 8 {
+            return Err("nesting too deep".into());
+        }
+        let show = |f: &Felt252| f.to_biguint().to_string();
+        let addr = |f: &Felt252| -> Result<usize, String> {
+            use num_traits::ToPrimitive;
+            f.to_biguint().to_usize().filter(|a| *a <= mem.len()).ok_or_else(|| format!("pointer {} outside memory", show(f)))
+        };
+        match self {
+            RetTy::Scalar(n) => {
+                if vals.len() != *n {
+                    return Err("size mismatch".into());
+                }
+                out.push_str(&vals.iter().map(show).collect::<Vec<_>>().join(","));
+                Ok(())
+            }
+            RetTy::Struct(m) => {
+                out.push('(');
+                let mut at = 0;
+                for x in m {
+                    let n = x.size();
+                    if at + n > vals.len() {
+                        return Err("size mismatch".into());
+                    }
+                    x.decode(&vals[at..at + n], mem, out, depth + 1)?;
+                    out.push(';');
+                    at += n;
+                }
+                out.push(')');
+                Ok(())
+            }
+            RetTy::Enum(v, total) => {
+                if vals.len() != *total {
+                    return Err("size mismatch".into());
+                }
+                let sel = show(&vals[0]);
+                let idx = match sel.as_str() {
+                    "0" => 0,
+                    "1" if v.len() == 2 => 1,
+                    _ => return Err(format!("unexpected variant selector {sel}")),
+                };
+                let (x, n) = &v[idx];
+                out.push_str(&format!("#{idx}<"));
+                x.decode(&vals[vals.len() - n..], mem, out, depth + 1)?;
+                out.push('>');
+                Ok(())
+            }
+            RetTy::Array(elem, esize) => {
+                // An empty array is empty wherever it points.
+                if vals[0] == vals[1] {
+                    out.push_str("[]");
+                    return Ok(());
+                }
+                let (s, e) = (addr(&vals[0])?, addr(&vals[1])?);
+                if e < s || (*esize > 0 && (e - s) % esize != 0) || e - s > 100_000 {
+                    return Err(format!("bad array bounds {s}..{e}"));
+                }
+                out.push('[');
+                if *esize > 0 {
+                    for k in (s..e).step_by(*esize) {
+                        let cells: Option<Vec<Felt252>> = mem[k..k + esize].iter().cloned().collect();
+                        let cells = cells.ok_or_else(|| "array cell unset".to_string())?;
+                        elem.decode(&cells, mem, out, depth + 1)?;
+                        out.push(';');
+                    }
+                }
+                out.push(']');
+                Ok(())
+            }
+            RetTy::Boxed(inner, isize_) => {
+                let a = addr(&vals[0])?;
+                if a + isize_ > mem.len() {
+                    return Err("box outside memory".into());
+                }
+                let cells: Option<Vec<Felt252>> = mem[a..a + isize_].iter().cloned().collect();
+                out.push_str("box<");
+                inner.decode(&cells.ok_or_else(|| "box cell unset".to_string())?, mem, out, depth + 1)?;
+                out.push('>');
+                Ok(())
+            }
+        }
+    }
+    pub fn size(&self) -> usize {
+        match self {
+            RetTy::Scalar(n) => *n,
+            RetTy::Struct(m) => m.iter().map(|x| x.size()).sum(),
+            RetTy::Enum(_, t) => *t,
+            RetTy::Array(..) => 2,
+            RetTy::Boxed(..) => 1,
+        }
+    }
+}
+
 /// A generated argument value (tree, because arrays nest).
 #[derive(Clone, Debug, PartialEq, Eq)]
 pub enum Val {
@@ -157,6 +273,93 @@ impl<'a> TypeTable<'a> {
             "EcPoint" | "NonZeroEcPoint" => true,
             _ => false,
         }
+    }
+
+    /// A decoder for result values of this type, dereferencing arrays and boxes, or `None` when the
+    /// type cannot be decoded (dictionaries, enums with more than two variants that hold pointers).
+    pub fn ret_ty(&self, id: &ConcreteTypeId) -> Option<RetTy> {
+        if self.pointer_free(id) {
+            return Some(RetTy::Scalar(self.size(id)?));
+        }
+        let long = self.long(id)?;
+        let g = long.generic_id.0.as_str();
+        let arg_ty = |i: usize| match long.generic_args.get(i) {
+            Some(GenericArg::Type(t)) => Some(t),
+            _ => None,
+        };
+        match g {
+            "Snapshot" => self.ret_ty(arg_ty(0)?),
+            "Array" => Some(RetTy::Array(Box::new(self.ret_ty(arg_ty(0)?)?), self.size(arg_ty(0)?)?)),
+            "Box" => Some(RetTy::Boxed(Box::new(self.ret_ty(arg_ty(0)?)?), self.size(arg_ty(0)?)?)),
+            "Struct" => {
+                let mut m = vec![];
+                for i in 1..long.generic_args.len() {
+                    m.push(self.ret_ty(arg_ty(i)?)?);
+                }
+                Some(RetTy::Struct(m))
+            }
+            "Enum" => {
+                let n = long.generic_args.len() - 1;
+                if n == 0 || n > 2 {
+                    return None;
+                }
+                let mut v = vec![];
+                for i in 1..=n {
+                    v.push((self.ret_ty(arg_ty(i)?)?, self.size(arg_ty(i)?)?));
+                }
+                Some(RetTy::Enum(v, self.size(id)?))
+            }
+            _ => None,
+        }
+    }
+
+    /// Size in felts of a value of the type (only for the types the decoder understands).
+    pub fn size(&self, id: &ConcreteTypeId) -> Option<usize> {
+        let long = self.long(id)?;
+        let g = long.generic_id.0.as_str();
+        let arg_ty = |i: usize| match long.generic_args.get(i) {
+            Some(GenericArg::Type(t)) => Some(t),
+            _ => None,
+        };
+        match g {
+            "felt252" | "u8" | "u16" | "u32" | "u64" | "u128" | "i8" | "i16" | "i32" | "i64" | "i128" | "bytes31"
+            | "BoundedInt" | "ContractAddress" | "ClassHash" | "StorageAddress" | "StorageBaseAddress" | "Box"
+            | "Nullable" => Some(1),
+            "QM31" => Some(1),
+            "EcPoint" | "NonZeroEcPoint" => Some(2),
+            "Array" => Some(2),
+            "NonZero" | "Snapshot" => self.size(arg_ty(0)?),
+            "Struct" => {
+                let mut s = 0;
+                for i in 1..long.generic_args.len() {
+                    s += self.size(arg_ty(i)?)?;
+                }
+                Some(s)
+            }
+            "Enum" => {
+                let mut m = 0;
+                for i in 1..long.generic_args.len() {
+                    m = m.max(self.size(arg_ty(i)?)?);
+                }
+                Some(1 + m)
+            }
+            _ => None,
+        }
+    }
+
+    /// The decoder of the function's user-visible result (inside `PanicResult` when present).
+    pub fn result_decoder(&self, id: &ConcreteTypeId) -> Option<RetTy> {
+        let long = self.long(id)?;
+        if long.generic_id.0 == "Enum"
+            && matches!(&long.generic_args[0], GenericArg::UserType(ut)
+                if ut.debug_name.as_ref().map(|n| n.starts_with("core::panics::PanicResult::")).unwrap_or(false))
+        {
+            return match &long.generic_args[1] {
+                GenericArg::Type(t) => self.ret_ty(t),
+                _ => None,
+            };
+        }
+        self.ret_ty(id)
     }
 
     /// The user-visible return type is pointer free (the panic branch carries an array, which the
